@@ -258,6 +258,8 @@ def m_vec_range_to(ex, st, callee, args, dest_ty):
         v = deref(ex, st, v)
     items = _vec_items(ex, st, v)
     hi = args[1].fields[-1].e
+    if "RangeToInclusive" in callee:   # &v[..=k]
+        hi = z3.simplify(hi + 1)
     for st2 in ex.branch(st, hi > len(items)):
         yield Outcome("panic", st2, msg="slice index out of range (%s)" % callee)
     for st2 in ex.branch(st, hi <= len(items)):
@@ -348,7 +350,7 @@ NAME_MODELS = [
     (R(r"^<Map<std::slice::Iter<.*>, .*> as Iterator>::enumerate$"), m_map_enumerate),
     (R(r"^<Enumerate<Map<.*>> as Iterator>::next$"), fv.m_iter_next),
     (R(r"^<Enumerate<Map<.*>> as IntoIterator>::into_iter$"), fv.m_into_iter_id),
-    (R(r"^<(Vec<.*>|\[.*\]) as Index<(std::ops::)?RangeTo<usize>>>::index$"), m_vec_range_to),
+    (R(r"^<(Vec<.*>|\[.*\]) as Index<(std::ops::)?RangeTo(Inclusive)?<usize>>>::index$"), m_vec_range_to),
     (R(r"^Vec::<.*>::truncate$"), m_vec_truncate),
     (R(r"^(core::|std::|alloc::)?slice::<impl \[.*\]>::to_vec$|^<\[.*\] as ToOwned>::to_owned$"), m_to_vec),
     (R(r"^(std::string::)?String::(new|with_capacity)$"), m_string_new),
